@@ -150,3 +150,23 @@ Definition chk_c09_rt (c : val) : val :=
             | m => verdict_mismatch m
             end
   end.
+
+(* ---------- C09, message-valued elements (no model of their own: for message kinds the codec hands each element to
+   protojson, so canonical proto3 JSON parsing of {"<field>": text} is the reference) ----------
+   input ( 0 field text discard ) impl ( codec-result reference-result ) - results: () rejected, ( wire-bytes ) accepted, ( 99 ) panic
+     1: both accept the text and store different messages ; 4: panic
+   input ( 1 field canonical-text discard ) impl ( codec-decoding-of-its-own-encoding  codec-decoding-of-the-canonical-text  value  own-text )
+     2: encoding the value and decoding it again does not give the value back
+     3: the decoder does not accept what the canonical encoder emits for the value (or stores another value) *)
+Definition is_panic (v : val) : bool := match as_L v with [VN 99] => true | _ => false end.
+Definition is_acc (v : val) : bool := match as_L v with [VS _] => true | _ => false end.
+Definition prop_c09_wkt (input impl : val) : option Z :=
+  match as_Z (nthv 0 input) with
+  | 0 => if is_panic (nthv 0 impl) then Some 4
+         else if is_acc (nthv 0 impl) && is_acc (nthv 1 impl) && negb (val_eqb (nthv 0 impl) (nthv 1 impl)) then Some 1 else None
+  | _ => if is_panic (nthv 0 impl) || is_panic (nthv 1 impl) then Some 4
+         else if negb (val_eqb (nthv 0 impl) (nthv 2 impl)) then Some 2
+         else if negb (val_eqb (nthv 1 impl) (nthv 2 impl)) then Some 3 else None
+  end.
+Definition chk_c09_wkt (c : val) : val :=
+  match prop_c09_wkt (nthv 0 c) (nthv 1 c) with Some r => verdict_propfail r (VL []) | None => verdict_ok end.
